@@ -11,6 +11,10 @@ import (
 	"golang.org/x/tools/go/ssa"
 )
 
+// initWhitelist: packages (other than the ones under test) whose initialiser is executed
+// because the code relies on state it sets up (context: the pre-closed done channel).
+var initWhitelist = map[string]bool{"context": true}
+
 type ctl int
 
 const (
@@ -93,7 +97,7 @@ func (in *Interp) invokeFn(th *Thread, caller *Frame, fn *ssa.Function, args, en
 	} else if o2, ok := in.prog.overrides[fn]; ok {
 		fn, env = o2, nil
 	}
-	if fn.Name() == "init" && fn.Pkg != nil && !in.prog.isTarget(fn.Pkg) && fn.Signature.Recv() == nil && fn.Parent() == nil {
+	if fn.Name() == "init" && fn.Pkg != nil && !in.prog.isTarget(fn.Pkg) && fn.Signature.Recv() == nil && fn.Parent() == nil && !initWhitelist[fn.Pkg.Pkg.Path()] {
 		// initialisers of other packages are not run (their globals are modelled lazily)
 		if callInstr != nil {
 			caller.pc++
